@@ -72,6 +72,16 @@ def cosine_similarity(
     y_pred: pd.DataFrame | pd.Series,
     y_true: pd.DataFrame | pd.Series,
 ) -> float:
-    """Calculate root mean square error between model and data."""
+    """Calculate negative cosine similarity between model and data.
+
+    The negative, so that a better alignment gives a smaller loss. The magnitude of
+    the prediction doesn't matter, just its direction.
+    """
+    # Compare what belongs together: pandas arithmetic aligns (and broadcasts) the two
+    # the same way the subtraction in the other losses does, NaN marks what has no partner
+    pred = np.asarray(y_pred + 0 * y_true, dtype=float).ravel()
+    true = np.asarray(y_true + 0 * y_pred, dtype=float).ravel()
+    both = ~(np.isnan(pred) | np.isnan(true))
+    pred, true = pred[both], true[both]
     norm = np.linalg.norm
-    return cast(float, -np.sum(norm(y_pred, 2) * norm(y_true, 2)))
+    return cast(float, -np.dot(pred, true) / (norm(pred, 2) * norm(true, 2)))
